@@ -278,6 +278,9 @@ func (m *MultiReaderAt) ReadAt(p []byte, off int64) (totalN int, err error) {
 
 		if n == toRead {
 			off += int64(n)
+		} else if i < len(m.readers)-1 {
+			// the piece holds fewer bytes than its declared size: the later pieces cannot be placed
+			return totalN, io.ErrUnexpectedEOF
 		}
 
 		if remaining == 0 {
